@@ -14,6 +14,8 @@ hash seeded by hash_leaf(data) and the PATH chunks in order, and continues with 
 L from children 2i, 2i+1 of level L-1 in that order.  Padding: a node is appended to the children level only on the odd-count edge.
 Reset: MerkleTree::reset clears every level (loop to exhaustion, no other exit); `levels` is written only by the
 constructors, push_leaf, compute_root and reset; Responder::reset calls it.  Both the producing and the verifying side end with the same finalisation.
+Hashing: hash_leaf = hash([0x00, leaf]), hash_nodes = hash([0x01, left, right]), and MerkleTree::hash feeds every input slice whole and in order into one
+digest under self.algorithm, truncated to hash_len() (a proof binds only the bytes the leaf hash covers).
 """
 NOT_DECIDED = "completeness for each of the 255 batch sizes and binding itself (collision resistance); the relational invariant level length = 2 x node_count"
 TRUSTED = ["Vec indexing / slice::chunks semantics", "ring digest"]
@@ -82,9 +84,34 @@ def walker(ctx, W, path, param):
     """The function that actually contains the level walk: `path` itself, or the crate-local method it forwards its position parameter to
     (a thin wrapper such as get_paths -> get_paths_into).  Returns (Fn, local number of the position parameter)."""
     fn = ctx.fn(path)
+    def loop_carrier(fn, param):
+        """the local that carries the position through the loop: the parameter itself, or (after a helper with a `mut index` parameter was
+        inlined) the local that is initialised with it before the loop and updated inside"""
+        defs = fn.defs()
+        inloop = lambda b: bool(fn.in_loop(b))
+        if any(inloop(b) for (b, i, k) in defs.get(param, [])):
+            return param
+        cur = param
+        for _ in range(3):
+            nxt = None
+            for l, ds in defs.items():
+                outs = [(b, i) for (b, i, k) in ds if k == "whole" and not inloop(b) and i != "term"]
+                if len(outs) != 1:
+                    continue
+                rv = fn.blocks[outs[0][0]].stmts[outs[0][1]]["rv"]
+                o = (rv["op"].get("cp") or rv["op"].get("mv")) if rv["k"] == "use" else None
+                if o and not o.get("p") and o["l"] == cur:
+                    if any(inloop(b) for (b, i, k) in ds):
+                        return l
+                    nxt = l
+            if nxt is None:
+                break
+            cur = nxt
+        return param
+
     for _ in range(3):
         if fn.loops():
-            return fn, param
+            return fn, loop_carrier(fn, param)
         ev = W.ev(fn.path)
         nxt = None
         for bb, t in fn.calls():
@@ -262,6 +289,10 @@ def run(ctx):
     W = World(ctx)
     P = ctx.prog
 
+    # ------------------------------------------------------------------ what is hashed (a proof binds only what the leaf hash covers)
+    import merkle_hash
+    merkle_hash.check_hashing(ctx, W, "hashing")
+
     # ------------------------------------------------------------------ get_paths
     gp, IDX = walker(ctx, W, M + "::get_paths", 2)
     for b in (0, 1):
@@ -282,7 +313,7 @@ def run(ctx):
         # next index
         nxt = []
         for (db, di, kind) in gp.defs().get(IDX, []):
-            if kind == "whole" and di != "term" and db in live:
+            if kind == "whole" and di != "term" and db in live and gp.in_loop(db):     # updates inside the walk (not the initialisation from the parameter)
                 nxt.append(ev.rvalue(gp.blocks[db].stmts[di]["rv"], (db, di)))
         ctx.check("index-algebra", "get_paths/parent/parity%d" % b, nxt == [("aff", 1, 0)], "continues with k",
                   "get_paths continues with %s instead of k = index div 2" % [fmt(n) for n in nxt], ctx.loc(gp))
